@@ -211,8 +211,17 @@ def _run_chunk_subprocess(mod_id: str, tier: str, seed: int, idx: int, spec: dic
     }
 
 
+def apply_selftest_patch():
+    """Self-test only: VERIF_SELFTEST_PATCH=<file.py> is exec'd before a chunk runs, so a seeded break can be applied
+    to the imported pynguin modules by monkeypatching, without editing /repo."""
+    path = os.environ.get("VERIF_SELFTEST_PATCH")
+    if path:
+        exec(compile(Path(path).read_text(), path, "exec"), {"__name__": "selftest_patch"})  # noqa: S102
+
+
 def run_chunk_in_child(mod, tier: str, seed: int, spec_path: str, out_path: str):
     """Entry point inside the worker subprocess."""
+    apply_selftest_patch()
     spec = json.loads(Path(spec_path).read_text())
     ctx = Ctx(mod.ID, tier, seed)
     ctx.scratch = make_scratch()
@@ -236,6 +245,7 @@ def run_check(mod, tier: str, seed: int, jobs: int = 16, only: str | None = None
     tmp = make_scratch("pynverif-run-")
     try:
         if in_process:
+            apply_selftest_patch()
             for spec in specs:
                 ctx = Ctx(mod.ID, tier, seed)
                 ctx.scratch = make_scratch()
